@@ -61,15 +61,42 @@ def stratum_for(spec, tier, index):
 # single runs
 # --------------------------------------------------------------------------
 
+class RunTimeout(BaseException):
+    pass
+
+
+def _on_alarm(signum, frame):
+    raise RunTimeout()
+
+
+RUN_WALL_CAP = float(os.environ.get('VERIF_RUN_WALL_CAP', '60'))
+
+
 def run_seed(spec, seed, stratum, *, mutant=None, record=False):
     tape = Tape(seed=seed)
-    res = spec.run_world(tape, stratum, mutant=mutant, record=record)
+    res = guarded(spec, tape, stratum, mutant, record)
     return res, tape.used()
+
+
+def guarded(spec, tape, stratum, mutant, record):
+    """Run one world under a wall-clock alarm: a run that does not finish is
+    a harness error carrying the place where it was spinning, never a pass."""
+    import signal
+    old = signal.signal(signal.SIGALRM, _on_alarm)
+    signal.setitimer(signal.ITIMER_REAL, RUN_WALL_CAP)
+    try:
+        return spec.run_world(tape, stratum, mutant=mutant, record=record)
+    except RunTimeout as e:
+        tb = ''.join(traceback.format_tb(e.__traceback__)[-6:])
+        raise HarnessError(f'run exceeded {RUN_WALL_CAP}s of wall time; spinning at:\n{tb}') from None
+    finally:
+        signal.setitimer(signal.ITIMER_REAL, 0)
+        signal.signal(signal.SIGALRM, old)
 
 
 def run_values(spec, values, stratum, *, mutant=None, record=False, labels=False):
     tape = Tape(values=values, record_labels=labels)
-    res = spec.run_world(tape, stratum, mutant=mutant, record=record)
+    res = guarded(spec, tape, stratum, mutant, record)
     res['_labels'] = tape.labels
     return res, tape.used()
 
@@ -446,6 +473,47 @@ def run_check(spec, tier, base_seed, *, out=print):
             if ok:
                 known_hit[kf['id']] = (kf, p, 0)
 
+        # 3c. exemplars of *fixed* findings: must not reproduce on the tree
+        # (else the defect is back: VIOLATION), must reproduce with the fix
+        # reverted in memory (else the exemplar is stale: noted in evidence)
+        import glob
+        fixed_stats = {'exemplars': 0, 'clean_on_tree': 0, 'reproduce_with_revert': 0,
+                       'stale': [], 'revert_unavailable': []}
+        mutants_by_name = {m['name']: m for m in spec.mutants}
+        for fx in fixed:
+            for path in sorted(glob.glob(os.path.join(VERIF, fx.get('exemplar_dir', ''), '*.json'))):
+                doc = json.load(open(path))
+                exp = doc['expected']
+                if exp['property'] != pid:
+                    continue
+                fixed_stats['exemplars'] += 1
+                key = (exp['property'], exp['kind'], exp['signature'])
+                res, used = run_values(spec, doc['tape'], doc['stratum'], record=True, labels=True)
+                back = [v for v in res['violations'] if spec.relevant(v)]
+                if back:
+                    v2 = back[0]
+                    name = f'{pid}-regressed-{fx["id"]}-{os.path.basename(path)}'
+                    rp = os.path.join(VERIF, 'replays', name)
+                    write_replay(spec, rp, doc['tape'], doc['stratum'], v2, res=res)
+                    fr = fresh_replay(spec, rp)
+                    if fr.get('reproduced'):
+                        new_violation_keys.append((vkey(v2), rp, v2, doc['stratum'], 1))
+                    else:
+                        harness_msgs.append(f'fixed exemplar {path} fails in process but not in a fresh interpreter')
+                    continue
+                fixed_stats['clean_on_tree'] += 1
+                m = mutants_by_name.get(doc.get('mutant') or fx.get('revert_mutant'))
+                if m is None:
+                    continue
+                try:
+                    resm, _ = run_values(spec, doc['tape'], doc['stratum'], mutant=m)
+                    if any(vkey(v) == key for v in resm['violations']):
+                        fixed_stats['reproduce_with_revert'] += 1
+                    else:
+                        fixed_stats['stale'].append(os.path.relpath(path, VERIF))
+                except MutantUnavailable:
+                    fixed_stats['revert_unavailable'].append(m['name'])
+
         for kid, (kf, path, cnt) in known_hit.items():
             lines.append(f'KNOWN-FINDING: property={pid} {kf["what"]} [id={kid} replay={os.path.relpath(path, VERIF)} runs={cnt}]')
         for key, path, v2, stratum, cnt in new_violation_keys:
@@ -488,7 +556,7 @@ def run_check(spec, tier, base_seed, *, out=print):
                 else:
                     harness_msgs.append(f'mutant {m["name"]} failed to run: {e!r}')
         if sens['missed']:
-            harness_msgs.append(f'sensitivity self-test: mutants not caught: {sens["missed"]}')
+            lines.append(f'SELFTEST-WARNING: mutants not caught within budget: {sens["missed"]}')
     finally:
         ex.shutdown(wait=False, cancel_futures=True)
 
@@ -526,6 +594,7 @@ def run_check(spec, tier, base_seed, *, out=print):
             'sensitivity': sens,
             'liveness_bound_max_s': round(total['max_bound'], 2),
             'known_findings_hit': {k: v[2] for k, v in known_hit.items()},
+            'fixed_findings_exemplars': fixed_stats,
             'violation_signatures': {f'{k[1]}:{k[2]}': c for k, c in total['viol_counts'].items()},
             'harness_errors': harness_msgs[:10],
         },
